@@ -50,7 +50,8 @@ GInit == [ acc |-> <<>>,      \* <<src,dst>> -> highest accepted request index
            batchPairs |-> {} ]\* pairs whose destination is an unordered ("batch") service
 
 \* the environment of a block: service statuses, block height, unordered services
-Avail(env, s) == Get(env.svc, s, "none") = "available"
+\* a service whose freeze is only proposed ("freezing") is still available
+Avail(env, s) == Get(env.svc, s, "none") \in {"available", "freezing"}
 
 (***************************************************************************)
 (* Acceptance rule                                                         *)
